@@ -12,15 +12,18 @@
        ids, header length 19..255, size table 35..255 entries, any padding pattern in the unused high bits of the
        last byte of every bitmap: c_pad_cols / c_pad_null / c_pad_tm), the mapper, the oracles and the start position,
        allows GTID / anonymous GTID / previous-GTIDs / heartbeat / other ignorable events and repeated format
-       descriptions between any two events, and covers every column type with every NULL / absent pattern
-       (JSON columns: NULL or absent only - Spec.Values has no JSON value; JSON values are C14).
+       descriptions between any two events, and covers every column type with every value (Spec.Values.wf_value:
+       JSON columns hold any storable document, VJson d with wf_doc d, C14) and every NULL / absent pattern.
+       The JSON printer of the model is Model.Json.print_json efmt - the model of printJSONData with the 'E'
+       float-formatting oracle efmt - and the denotation renders documents with the same efmt; efmt is
+       universally quantified like ffmt and tz.
        C01_e2e_fidelity_from is the same for a dump started at any unit boundary.
    The composition for concrete histories (JSON columns included) is also exercised end to end by the harness
    (model, implementation through the parseEvents hook, and the real Stream() against the fake master are compared
    with the unit-level oracle). *)
 From Coq Require Import String.
-From GB Require Import Base.Prelude Model.Events Model.Rbr Model.Streamer Model.Handshake Spec.Units.
-From GB Require Import Spec.EncHeader Spec.Values Spec.EncEvent Spec.Expect Spec.EventSpec Spec.Binlog.
+From GB Require Import Base.Prelude Base.DecText Model.Events Model.Rbr Model.Json Model.Streamer Model.Handshake Spec.Units.
+From GB Require Import Spec.EncHeader Spec.Values Spec.EncJson Spec.EncEvent Spec.Expect Spec.EventSpec Spec.Binlog.
 From GB Require Import Proofs.ImageProofs Proofs.TableMapProofs Proofs.RowsProofs Proofs.RowsAll Proofs.CellAll.
 From GB Require Import Proofs.StreamProofs Proofs.StreamProofs2 Proofs.StreamProofs3 Proofs.Capstone.
 Open Scope Z_scope.
@@ -54,29 +57,29 @@ Proof. split; vm_compute; reflexivity. Qed.
 
 (* ---- the capstone ---- *)
 
-(* For every configuration c, table mapper mp, oracles (tz bounded), start position p and binlog b that is
-   well-formed for c and mp: the bytes the master serves for b - fake rotate, format description, the events of
+(* For every configuration c, table mapper mp, oracles ffmt, tz (bounded), efmt, start position p and binlog b that
+   is well-formed for c and mp (the JSON printer being the model of printJSONData over efmt): the bytes the master serves for b - fake rotate, format description, the events of
    the units with ignorable events anywhere - make parseEvents (every handler call accepted) return the final
    boundary position, the transactions of the units b denotes (exactly one per committing unit, in commit order,
    with their changes, images, timestamps and position labels), and no error. *)
-Theorem C01_e2e_fidelity : forall ffmt tz jsonp mp c b p,
+Theorem C01_e2e_fidelity : forall ffmt tz efmt mp c b p,
   (forall v, -86400 <= tz v <= 86400) ->
   wf_binlog c mp b ->
-  parse_events ffmt tz jsonp (fun _ => true) mp p (map (wire c) (serve b)) =
-    (snd (spec_run p (denote ffmt tz mp b)),
-     map (fun t => (t, true)) (fst (spec_run p (denote ffmt tz mp b))),
+  parse_events ffmt tz (print_json efmt) (fun _ => true) mp p (map (wire c) (serve b)) =
+    (snd (spec_run p (denote ffmt tz efmt mp b)),
+     map (fun t => (t, true)) (fst (spec_run p (denote ffmt tz efmt mp b))),
      OEnd).
 Proof. exact e2e_fidelity. Qed.
 Print Assumptions C01_e2e_fidelity.
 
 (* every valid start position: a dump started at the boundary after the first k units (any fake rotate in front)
    delivers exactly the remaining transactions, which are the rest of what the whole binlog delivers *)
-Theorem C01_e2e_fidelity_from : forall ffmt tz jsonp mp c b p k h name pos crc,
+Theorem C01_e2e_fidelity_from : forall ffmt tz efmt mp c b p k h name pos crc,
   (forall v, -86400 <= tz v <= 86400) ->
   wf_binlog c mp b -> wf_whdr h -> fits c (WRotate h name pos crc) ->
-  let us := denote ffmt tz mp b in
+  let us := denote ffmt tz efmt mp b in
   let q := snd (spec_run p (firstn k us)) in
-  parse_events ffmt tz jsonp (fun _ => true) mp q (map (wire c) (serve (serve_from b k h name pos crc))) =
+  parse_events ffmt tz (print_json efmt) (fun _ => true) mp q (map (wire c) (serve (serve_from b k h name pos crc))) =
     (snd (spec_run p us), map (fun t => (t, true)) (fst (spec_run q (skipn k us))), OEnd) /\
   fst (spec_run p us) = fst (spec_run p (firstn k us)) ++ fst (spec_run q (skipn k us)).
 Proof. exact e2e_fidelity_from. Qed.
@@ -88,7 +91,8 @@ Example C01_spec_tables :
   forallb (fun t => negb (ignorable_type t)) handled_types = true.
 Proof. repeat split; vm_compute; reflexivity. Qed.
 
-(* ---- non-vacuity: two tables (the second with a JSON column, NULL or absent in every row), CRC32 on, 23-byte headers, v2 rows events; previous-GTIDs and anonymous GTID
+(* ---- non-vacuity: two tables (the second with a JSON column: a document - object with a nested array, a double,
+        an opaque DATETIME - in one row, NULL or absent in the others), CRC32 on, 23-byte headers, v2 rows events; previous-GTIDs and anonymous GTID
         events; a transaction that logs both table maps first (multi-table statement), then an update of 2 rows
         of the first table (NULL and absent columns, different presence patterns before / after), an ignorable
         event and a SAVEPOINT statement, two rows events for the second table (a large statement split in two), closed by XID; a heartbeat;
@@ -99,7 +103,11 @@ Definition e_cfg : cfg := {| c_crc := true; c_v2 := true; c_tid4 := false; c_hle
                              c_pad_cols := 255; c_pad_null := 255; c_pad_tm := 170 |}.
 Definition e_ffmt (b x : Z) : bytes := [49].
 Definition e_tz (x : Z) : Z := 0.
-Definition e_jsonp (b : bytes) : res bytes := Err EJson.
+Definition e_efmt (bits : Z) : bytes := str "1E+" ++ digs bits.
+Definition e_jsonp : bytes -> res bytes := print_json e_efmt.
+Definition e_doc : jdoc :=
+  JObj false [(str "tags", JArr false [JStr (str "vip"); JInt16 (-3); JTrue]); (str "score", JDouble 7);
+              (str "at", JDateTime 2020 1 2 3 4 5 600000); (str "big", JUint64 18446744073709551615)].
 
 Definition e_t1 : table_def :=
   {| td_id := 70; td_flags := 1; td_db := str "shop"; td_name := str "orders";
@@ -129,7 +137,7 @@ Definition e_upd : rows_def :=
                   [CAbsent; CNull; CVal (VDecimal true [0; 0; 0; 0; 0; 0; 0; 7] [0; 0]); CVal (VDateTime 2020 1 2 3 4 5 123); CNull]] |}.
 Definition e_ins : rows_def :=
   {| rd_kind := 0; rd_id := 71; rd_flags := 0; rd_extra := []; rd_before := [];
-     rd_after := [[CVal (VInt 18446744073709551615); CVal (VBytes (str "paid")); CNull]] |}.
+     rd_after := [[CVal (VInt 18446744073709551615); CVal (VBytes (str "paid")); CVal (VJson e_doc)]] |}.
 Definition e_ins2 : rows_def :=
   {| rd_kind := 0; rd_id := 71; rd_flags := 1; rd_extra := [7]; rd_before := [];
      rd_after := [[CVal (VInt 1); CNull; CAbsent]; [CVal (VInt 2); CVal (VBytes []); CAbsent]] |}.
@@ -161,12 +169,12 @@ Definition e_p : position := {| p_file := str "bin.000001"; p_off := 220 |}.
 (* evaluated through parse_events: the result is the one the specification computes for the denoted units ... *)
 Example C01_e2e_example :
   parse_events e_ffmt e_tz e_jsonp (fun _ => true) e_mp e_p (map (wire e_cfg) (serve e_b)) =
-  (snd (spec_run e_p (denote e_ffmt e_tz e_mp e_b)),
-   map (fun t => (t, true)) (fst (spec_run e_p (denote e_ffmt e_tz e_mp e_b))), OEnd).
+  (snd (spec_run e_p (denote e_ffmt e_tz e_efmt e_mp e_b)),
+   map (fun t => (t, true)) (fst (spec_run e_p (denote e_ffmt e_tz e_efmt e_mp e_b))), OEnd).
 Proof. vm_compute. reflexivity. Qed.
 
 (* ... namely four transactions with chained labels, ending in the second file; the update carries both rows with
-   absent (true, None), NULL (false, None) and value cells *)
+   absent (true, None), NULL (false, None) and value cells; the first insert carries the rendered JSON document *)
 Example C01_e2e_example_values :
   let '(p, txs, o) := parse_events e_ffmt e_tz e_jsonp (fun _ => true) e_mp e_p (map (wire e_cfg) (serve e_b)) in
   p = {| p_file := str "bin.000002"; p_off := 350 |} /\ o = OEnd /\
@@ -177,7 +185,10 @@ Example C01_e2e_example_values :
   match txs with
   | (t, _) :: _ =>
     match t_events t with
-    | Some (u :: _) =>
+    | Some (u :: i :: _) =>
+      map (map (fun c => (c_type c, c_empty c, c_data c))) (se_values i) =
+        [[(8, false, Some (str "18446744073709551615")); (252, false, Some (str "paid"));
+          (245, false, Some (str "JSON_OBJECT('tags',JSON_ARRAY('vip',-3,true),'score',1E+7,'at',CAST('2020-01-02 03:04:05.600000' AS DATETIME(6)),'big',18446744073709551615)"))]] /\
       map (map (fun c => (c_empty c, c_data c))) (se_ids u) =
         [[(false, Some (str "5")); (true, None); (true, None); (true, None); (false, None)];
          [(false, Some (str "6")); (true, None); (true, None); (true, None); (false, Some (str "200"))]] /\
@@ -276,3 +287,34 @@ Theorem C01_tie_Rows : forall fuel ev f tm,
 Proof. exact binlogEvent_Rows_equiv. Qed.
 Print Assumptions C01_tie_Rows.
 
+(* ---------------------------------------------------------------------------------------------------------------
+   Source pins.  The model functions used above are a hand-written reading of these Go functions (they have closures,
+   channels, interfaces or maps, which the translator gotrans does not accept).  gosync regenerates their normalised
+   text (logging calls and comments removed) into gen/Source.v on every run; it must equal the committed snapshot
+   Spec/SourceSnapshot.v the models were written and validated against.  When one of them is edited the Example
+   naming it fails, the check runs the thorough harness in search of a failing input, and reports the property as no
+   longer shown to hold (with the input, or no-failing-input-found). *)
+From GB Require Proofs.SourcePins Spec.SourceSnapshot.
+From GBGen Require Source.
+Example C01_pin_parseEvents : Source.src_parseEvents = SourceSnapshot.src_parseEvents.
+Proof. exact SourcePins.pin_parseEvents. Qed.
+Example C01_pin_getValuesFromRow : Source.src_getValuesFromRow = SourceSnapshot.src_getValuesFromRow.
+Proof. exact SourcePins.pin_getValuesFromRow. Qed.
+Example C01_pin_getIdentifiesFromRow : Source.src_getIdentifiesFromRow = SourceSnapshot.src_getIdentifiesFromRow.
+Proof. exact SourcePins.pin_getIdentifiesFromRow. Qed.
+Example C01_pin_appendInsertEventFromRows : Source.src_appendInsertEventFromRows = SourceSnapshot.src_appendInsertEventFromRows.
+Proof. exact SourcePins.pin_appendInsertEventFromRows. Qed.
+Example C01_pin_appendUpdateEventFromRows : Source.src_appendUpdateEventFromRows = SourceSnapshot.src_appendUpdateEventFromRows.
+Proof. exact SourcePins.pin_appendUpdateEventFromRows. Qed.
+Example C01_pin_appendDeleteEventFromRows : Source.src_appendDeleteEventFromRows = SourceSnapshot.src_appendDeleteEventFromRows.
+Proof. exact SourcePins.pin_appendDeleteEventFromRows. Qed.
+Example C01_pin_readBinlogEvent : Source.src_readBinlogEvent = SourceSnapshot.src_readBinlogEvent.
+Proof. exact SourcePins.pin_readBinlogEvent. Qed.
+Example C01_pin_startDumpFromBinlogPosition : Source.src_startDumpFromBinlogPosition = SourceSnapshot.src_startDumpFromBinlogPosition.
+Proof. exact SourcePins.pin_startDumpFromBinlogPosition. Qed.
+Example C01_pin_newTransaction : Source.src_newTransaction = SourceSnapshot.src_newTransaction.
+Proof. exact SourcePins.pin_newTransaction. Qed.
+Example C01_pin_newStreamEvent : Source.src_newStreamEvent = SourceSnapshot.src_newStreamEvent.
+Proof. exact SourcePins.pin_newStreamEvent. Qed.
+Example C01_pin_newColumnData : Source.src_newColumnData = SourceSnapshot.src_newColumnData.
+Proof. exact SourcePins.pin_newColumnData. Qed.
